@@ -285,6 +285,12 @@ impl Report {
     }
 
     pub fn violation_n(&mut self, v: Violation, n: u64) {
+        // single-case replay by deterministic re-enumeration: only the recorded case counts
+        if let Ok(target) = std::env::var("HV_REPLAY_CASE") {
+            if v.case.to_string() != target {
+                return;
+            }
+        }
         let e = self
             .violations
             .entry(v.sig.clone())
@@ -393,15 +399,21 @@ impl Report {
                 );
                 break;
             }
-            let path = rdir.join(format!("{i}.json"));
+            let mut path = rdir.join(format!("{i}.json"));
+            if let Ok(orig) = std::env::var("HV_REPLAY_PATH") {
+                path = PathBuf::from(orig); // replaying: the artefact already exists
+            }
             let body = json!({
                 "property": self.property,
                 "signature": sig,
                 "cases_with_this_signature": n,
+                "tier": self.tier.name(),
                 "case": v.case,
                 "detail": v.detail,
             });
-            std::fs::write(&path, serde_json::to_string_pretty(&body).unwrap()).unwrap();
+            if std::env::var("HV_REPLAY_PATH").is_err() {
+                std::fs::write(&path, serde_json::to_string_pretty(&body).unwrap()).unwrap();
+            }
             println!(
                 "VIOLATION property={} replay={}",
                 self.property,
